@@ -233,6 +233,24 @@ def _r6_damping_floor(chk, repo):
             rest = [x for x in args if x not in grow]
             if len(grow) == 1 and len(rest) == 1:
                 floors.append((_norm(ex.expand(rest[0], n)), a))
+    # ... and in a local closure that computes the new damping from the old one: `return max(omup*nu, floor)` with nu a parameter of the closure
+    for d in ast.walk(ex.fn):
+        if isinstance(d, ast.FunctionDef) and d is not ex.fn:
+            dps = set(func_params(d))
+            exd = Expander(d)
+            for n in exd.cfg.returns():
+                v = n.ast.value
+                if isinstance(v, ast.Call) and call_name(v) == "max" and len(v.args) == 2:
+                    grow = [x for x in v.args if any(isinstance(y, ast.Name) and y.id in dps for y in ast.walk(x))]
+                    rest = [x for x in v.args if x not in grow]
+                    if len(grow) == 1 and len(rest) == 1:
+                        r_ = exd.expand(rest[0], n)
+                        # free variables of the closure are the enclosing function's locals
+                        try:
+                            at = ex.cfg.node_of(d)
+                        except KeyError:
+                            at = ex.cfg.exit
+                        floors.append((_norm(ex.expand(r_, at)), n.ast))
     vals = sorted({f for f, _ in floors})
     ok = len(floors) >= 2 and vals == ["self.nu0"]
     chk.add("C16-R6", f"{ci.qual}.solve/damping-floor", ok, site(repo, floors[0][1]) if floors else site(repo, src), "every damping increase is max(omup*nu, self.nu0)",
